@@ -13,6 +13,7 @@ import GlareModel.Core.Tokens
 import GlareModel.Core.Unify
 import GlareModel.Core.Footer
 import GlareModel.Core.Layout
+import GlareModel.Core.Plain
 
 /-! `gmodel`: line-protocol driver. Reads `case <n> <component> ...` lines on stdin and
 prints `out <n> ...` lines computed by the code-shaped model. -/
@@ -371,6 +372,24 @@ def runLayout (args : List String) : String :=
     s!"v={l.validityWidth} w={l.rowWidth} o={os}"
   | _ => "bad-case"
 
+/-- `case N pqpage <type> <optional 0|1> <numValues> <hex body>`: rows of one v1 PLAIN data page. -/
+def runPqPage (args : List String) : String :=
+  match args with
+  | [t, opt, n, h] =>
+    let ty : Option Plain.PType := match t with
+      | "bool" => some .bool | "int32" => some .int32 | "int64" => some .int64 | "double" => some .double | "utf8" => some .bytes | _ => none
+    match ty, n.toNat?, (if h == "-" then some [] else parseHexBytes h) with
+    | some ty, some n, some body =>
+      match Plain.decodePage ty (opt == "1") n body with
+      | none => "err"
+      | some rows => "ok " ++ " ".intercalate (rows.map fun r => match r with
+          | none => "N"
+          | some (.int v) => s!"i{v}"
+          | some (.bits v) => s!"f{v}"
+          | some (.bytes b) => "s" ++ (if b.isEmpty then "-" else hexOfBytes b))
+    | _, _, _ => "bad-case"
+  | _ => "bad-case"
+
 def step (line : String) : Option String :=
   -- `case N sem <payload>`: the payload keeps its spaces
   match (line.trimAscii.toString.splitOn " ") with
@@ -386,6 +405,7 @@ def step (line : String) : Option String :=
   | "case" :: n :: "cast" :: args => some s!"out {n} {runCast args}"
   | "case" :: n :: "like" :: args => some s!"out {n} {runLike args}"
   | "case" :: n :: "rle" :: args => some s!"out {n} {runRle args}"
+  | "case" :: n :: "pqpage" :: args => some s!"out {n} {runPqPage args}"
   | "case" :: n :: "layout" :: args => some s!"out {n} {runLayout args}"
   | "case" :: n :: "footer" :: args => some s!"out {n} {runFooter args}"
   | "case" :: n :: "unify" :: args => some s!"out {n} {runUnify args}"
